@@ -15,7 +15,7 @@ for d in sorted(glob.glob(os.path.join(H, "seeded", "*"))):
     sig = "; ".join(s[:80] for s in c.get("signatures", [])[:2])
     hist = m.get("history", "")
     rows.append("| %s | %s | %s | %s | %s |" % (name, summ.replace("|", "\\|"), needs.replace("|", "\\|"),
-                ("**caught** (%s)" % c.get("tier", "quick")) if c.get("detected") else "MISSED", (sig.replace("|", "\\|") + (" — " + hist if hist else ""))))
+                ("**caught** (%s)" % c.get("tier", "quick")) if c.get("detected") else ("obsolete (no longer breaks the property, see history)" if m.get("obsolete") else "MISSED"), (sig.replace("|", "\\|") + (" — " + hist if hist else ""))))
 table = "| seed | change | needs | ./check | first signature(s) / history |\n|---|---|---|---|---|\n" + "\n".join(rows)
 p = os.path.join(H, "DESIGN.md")
 s = open(p).read()
